@@ -857,6 +857,8 @@ func (x *Exec) convert(st *State, from, to types.Type, v Value) Value {
 			st.Assume(Eq(x.seqLen(sq), sl.Len))
 			r := x.D.Fun("str_of_seq", SStr, sq)
 			st.Assume(Eq(x.strLen(r), sl.Len))
+			// string(b) and []byte(s) are mutually inverse (instance for this term)
+			st.Assume(Eq(x.D.Fun("seq_of_str", SSeq, r), sq))
 			return r
 		}
 		if isString(from) {
@@ -879,6 +881,7 @@ func (x *Exec) convert(st *State, from, to types.Type, v Value) Value {
 				sq := x.seqOf(st, r)
 				st.Assume(Eq(sq, x.D.Fun("seq_of_str", SSeq, s)))
 				st.Assume(Eq(x.seqLen(sq), n))
+				st.Assume(Eq(x.D.Fun("str_of_seq", SStr, sq), s))
 				return r
 			}
 		}
